@@ -731,6 +731,9 @@ class Engine:
                 return out
             if con is not None and con.kind == "property":
                 return self.call_contract(con, {"self": recv}, s, exc, line)
+            inl = self.inlined_method(ty.cls, attr)
+            if inl is not None:
+                return [(s, Val(TFunc(), ("inline", inl[0], inl[1], recv)))]
             if con is not None:
                 return [(s, Val(TFunc(), ("bound", con, recv)))]
             if attr == "__class__":
@@ -1150,6 +1153,11 @@ class Engine:
                 return self.builtin_method(s, lst, "append", [x], {}, exc, node)
             if kind == "closure":
                 return self.call_closure(s, f, pos, kw, exc, line)
+            if kind == "inline":
+                # a plain method the contract of the verified function asks to have executed in place (its loops are
+                # specified there, under their own ordinals): same mechanism as a closure, with `self` bound
+                _, mi, fn, recv = f.z
+                return self.call_closure(s, Val(TFunc(), ("closure", fn, None, mi)), [recv] + pos, kw, exc, line)
             if kind == "lambda":
                 return self.call_lambda(s, f, pos, kw, exc, line)
         if isinstance(f.ty, TConst):
@@ -1498,6 +1506,20 @@ class Engine:
         return out
 
     # -- closures / lambdas (executed in the defining scope: mechanical inlining)
+
+    def inlined_method(self, cls, attr):
+        """(module, function) if the contract under verification lists the plain (non-generator) method cls.attr in `inlined`"""
+        wanted = {q for q, _ in (getattr(self.fn, "inlined", None) or ())}
+        if not wanted:
+            return None
+        for c in [cls] + CLASSES[cls]["bases"]:
+            for modname in CLASS_MODULES.get(c, []):
+                if f"{modname}.{c}.{attr}" in wanted:
+                    mi = source.load(modname)
+                    fn = mi.functions.get(f"{c}.{attr}")
+                    if fn is not None and not any(isinstance(n, (ast.Yield, ast.YieldFrom)) for n in ast.walk(fn)):
+                        return mi, fn
+        return None
 
     def call_closure(self, s, f, pos, kw, exc, line):
         _, fn, parent, mi = f.z
@@ -2027,6 +2049,13 @@ class Engine:
             for s, _ in self.ev_seq([e.func.value, g.generators[0].iter], st, exc):
                 out.append((s, mk_str(smt.fresh("joined", smt.Str))))
             return out
+        if e.func.attr == "extend" and len(e.args) == 1 and not e.keywords:
+            # xs.extend(f(x) for x in ys) adds what xs.extend([f(x) for x in ys]) adds (the element expression may not
+            # write to the heap, which ev_ListComp checks)
+            g = e.args[0]
+            comp = ast.copy_location(ast.ListComp(elt=g.elt, generators=g.generators), g)
+            call = ast.copy_location(ast.Call(func=e.func, args=[comp], keywords=[]), e)
+            return self.ev_Call(call, st, exc)
         raise OutOfSubset(f"generator expression in .{e.func.attr} at L{e.lineno}")
 
     # ------------------------------------------------------------------
@@ -2809,7 +2838,7 @@ class Engine:
         if not isinstance(recv.ty, TRef):
             return None
         gcon = find_contract(recv.ty.cls, name)
-        if gcon is not None and getattr(gcon, "as_list", False):
+        if gcon is not None and getattr(gcon, "as_list", False) and gcon.qualname not in {q for q, _ in (getattr(self.fn, "inlined", None) or ())}:
             return None  # called by contract: the generator is the list of what it yields
         for c in [recv.ty.cls] + CLASSES[recv.ty.cls]["bases"]:
             for modname in CLASS_MODULES.get(c, []):
@@ -2948,6 +2977,7 @@ CLASS_MODULES = {
     "FastaIndex": ["tola.fasta.index"],
     "FastaInfo": ["tola.fasta.index"],
     "FastaStream": ["tola.fasta.stream"],
+    "FastaSeq": ["tola.fasta.simple"],
     "AssemblyStats": ["tola.assembly.assembly_stats"],
     "ChrNamer": ["tola.assembly.build_utils"],
     "OverhangPremise": ["tola.assembly.build_utils"],
